@@ -57,7 +57,7 @@ class InverseLaplaceTransformer(UnilateralInverseTransformer):
         result = undef.subs(t, t / scale) / abs(scale)
 
         if shift != 0:
-            result = result * sym.exp(t * shift / scale)
+            result = result * sym.exp(-t * shift / scale)
         return result
 
     def do_damped_sin(self, expr, s, t):
@@ -483,9 +483,9 @@ class InverseLaplaceTransformer(UnilateralInverseTransformer):
         if Gammal == 0:
             h2 = 0
         elif Gammas == 0:
-            h2 = (1 - Gammas) * (1 + Gammas) * func(t - 2 * m * T)
+            h2 = Gammal / 2 * func(t - 2 * T)
         else:
-            h2 = (1 - Gammas) * (1 + Gammas) / Gammas * \
+            h2 = (1 - Gammas) * (1 + Gammas) / (2 * Gammas) * \
                 sym.Sum((Gammas * Gammal)**m *
                         func(t - 2 * m * T), (m, 1, sym.oo))
         return K * (h1 + h2)
@@ -525,7 +525,7 @@ class InverseLaplaceTransformer(UnilateralInverseTransformer):
             elif expr.args[0].func == sym.tanh:
                 scale, shift = scale_shift(arg, s)
                 if shift == 0:
-                    return const * 2 * sym.Sum((-1)**m * sym.DiracDelta(t - scale * (2 * m + 1)), (m, 1, sym.oo)) + const * sym.DiracDelta(t), Zero
+                    return const * 2 * sym.Sum(sym.DiracDelta(t - 2 * scale * m), (m, 1, sym.oo)) + const * sym.DiracDelta(t), Zero
 
         if expr.has(sym.cosh) and expr.has(sym.sinh):
             try:
